@@ -23,7 +23,7 @@ def body(rec, c):
     run_history(rec, PROPERTY, c, lambda m: m.stats["commits"] >= 50 and m.stats["liftings"] >= 1)
 
 
-CHECKS = [Check("history", body, lambda: {"c": config_case()}, quick=6, thorough=40, quick_shards=8,
+CHECKS = [Check("history", body, lambda: {"c": config_case()}, quick=6, thorough=120, quick_shards=8,
                 thorough_shards=16, shrink_quick=False)]
 try:
     from .C13_stateful import CHECKS as _S
